@@ -615,6 +615,9 @@ def shards(tier, seed):
     out = []
     for cfg in (True, False):
         out.append({'what': 'path', 'config': cfg})
+        if tier == 'thorough' and cfg:
+            # LMAX 3 over the 3-segment pool, scipy configuration only (the fallback costs ~5x per state)
+            out.append({'what': 'path', 'config': cfg, 'variant': 'deep'})
         for spec in SEG_SPECS:
             out.append({'what': 'segment', 'config': cfg, 'spec': spec})
     out.append({'what': 'hash_eq'})
@@ -635,9 +638,10 @@ def run_shard(desc, tier, seed):
     sp._quad_available = bool(cfg)
     try:
         if desc['what'] == 'path':
-            fix = core.parallel_bfs([([], Path())], successors_path(tier, cfg), path_key,
-                                    inspect_path(tier, cfg), acc, jobs=16)
-            acc.extra['fixpoint'] = {'path/' + cfg_name(cfg): bool(fix)}
+            vt = desc.get('variant', tier)
+            fix = core.parallel_bfs([([], Path())], successors_path(vt, cfg), path_key,
+                                    inspect_path(vt, cfg), acc, jobs=16)
+            acc.extra['fixpoint'] = {'path/%s/%s' % (vt, cfg_name(cfg)): bool(fix)}
         else:
             spec = desc['spec']
             core.parallel_bfs([([], [j2seg(spec)])], successors_seg(cfg, spec), seg_key,
@@ -663,6 +667,8 @@ def expected_classes(tier):
 
 def space(tier, seed):
     return {
+        'path_level_variants': ({'thorough': 'LMAX 2, 4-segment pool incl. an Arc, both configurations',
+                                 'deep': 'LMAX 3, 3-segment pool, scipy configuration'} if tier == 'thorough' else 'LMAX 2, 3-segment pool, both configurations'),
         'path_level': {'pool': pool(tier), 'LMAX': lmax(tier), 'start/end assignment pool': [core.jz(ZS), core.jz(ZE), 'pool[0].start', 'pool[0].end'],
                        'operations_from_a_full_path': path_ops(lmax(tier), tier),
                        'bound': 'fixpoint (all histories of every length over this alphabet)'},
